@@ -510,7 +510,7 @@ def build_fit(spec):
 def fixed_names(spec, par_names):
     out = []
     for tok in (spec.get("pstate") or "none").split("+"):
-        if tok in ("fix", "fixval"):
+        if tok in ("fix", "fixval", "fixset", "fixsetall"):
             out.append(par_names[0])
         if tok == "fix2":
             out.append(par_names[1])
@@ -543,6 +543,12 @@ def _apply_pstate(fit, tok, par_names, defaults, cons):
     elif tok == "fixrel":  # fixed and released again: the saved fit must not hold the parameter fixed
         fit.fix_parameter(p0, defaults[p0] * 1.05 + 0.02)
         fit.release_parameter(p0)
+    elif tok == "fixset":  # fixed, then given another value: it stays fixed - at the value it was given last
+        fit.fix_parameter(p0, defaults[p0] * 1.05 + 0.02)
+        fit.set_parameter_values(**{p0: defaults[p0] * 0.93 - 0.01})
+    elif tok == "fixsetall":
+        fit.fix_parameter(p0)
+        fit.set_all_parameter_values([defaults[p] * (0.93 if i == 0 else 1.02) - 0.01 for i, p in enumerate(par_names)])
     elif tok == "limlow":  # one-sided
         fit.limit_parameter(p0, lower=defaults[p0] - 5.0 * abs(defaults[p0]) - 1.0)
     elif tok.startswith("con-"):
